@@ -192,7 +192,11 @@ func TestVerifC11DTLSChild(t *testing.T) {
 		return accepted, dialled, hello
 	}
 	// control: an untouched handshake must work here, otherwise nothing below says anything
-	ok, _, hello := handshake(vlib.NewRand("C11-dtls-control"), -1, false, true, 10*time.Second)
+	var ok bool
+	var hello []byte
+	for try := 0; try < 3 && !(ok && hello != nil); try++ {
+		ok, _, hello = handshake(vlib.NewRand(fmt.Sprintf("C11-dtls-control-%d", try)), -1, false, true, 10*time.Second)
+	}
 	if !ok || hello == nil {
 		say("NOCONTROL")
 		return
